@@ -302,7 +302,10 @@ def gen_history(cfg, ref, rng):
     remaining = ops_total  # rough number of file-system ops the next segment still has to do
     for s in range(n_faults):
         r = rng.random()
-        if r < 0.55:
+        if r < 0.05:
+            # SIGTERM at a signal-delivery point (default action: the process is gone there and then)
+            faults.append({'kind': 'sigterm', 'at': [rng.randrange(1, max(2, ref['delivery_points']))]})
+        elif r < 0.55:
             if s > 0 and rng.random() < 0.45:
                 at = rng.randrange(0, ops_per_save + 2)  # inside the first save after the resume
             elif s == 0 and rng.random() < 0.8 and ref.get('first_save_done_at') is not None:
@@ -554,6 +557,9 @@ def run_history(plan, ref_results, pre_bytes, stats, nb=None):
             elif fault['kind'] == 'diskfull' and world.fs.errors_fired:
                 fired = 'diskfull'
                 world.fs.errors_fired = []
+            elif fault['kind'] == 'sigterm' and world.sigterms_delivered:
+                fired = 'sigterm'
+                world.sigterms_delivered = 0
             elif fault['kind'] == 'sigint' and world.sigints_delivered:
                 fired = 'sigint%d' % world.sigints_delivered
                 world.sigints_delivered = 0
@@ -834,7 +840,7 @@ def minimise(found, budget_s=240.0):
                        ('preexisting_output', False), ('conserve', None), ('save_every', 0.0), ('mixer', None),
                        ('measure_at_checkpoints', False), ('max_hours', None), ('N_sweeps_check', 1),
                        ('chi_list', None), ('group_sites', 1), ('measure_initial', True), ('save_stats', True), ('save_psi', True), ('canonicalize', False), ('wrapped_measurement', False), ('truncerr_measurement', False), ('start_time', 0.0), ('preserve_norm', None), ('combine', False), ('diag_method', 'default'), ('max_S_err', None), ('max_E_err', None), ('max_sweeps', 3), ('n_outer', 3), ('N_steps', 1), ('chi', 8), ('model', 'TFIChain'),
-                       ('order', 2), ('neighbour', False), ('out_stem', 'results'), ('skip_if_output_exists', False)]
+                       ('order', 2), ('neighbour', False), ('out_stem', 'results'), ('skip_if_output_exists', False), ('disorder', None), ('random_seed', None)]
     for key, val in simplifications:
         if key in best['cfg'] and best['cfg'][key] != val and best['cfg'][key] is not None or (
                 key in best['cfg'] and val is None and best['cfg'][key] is not None):
